@@ -19,7 +19,7 @@ ID = 'C07'
 LEVEL = 'exploration'
 RULE = ('Hypothesis-generated configurations (min_watermark 0-2, max_watermark 1-4, max_queue_len 0-4 or unbounded, '
         'connection open delay 0-120 ms, up to 4 connections whose open is refused) and histories (<= 60 ops) of submit(timeout 20-200 ms or none) / complete(any lent '
-        'request, reply or error) / complete two lent requests in the same instant / advance(1-150 ms) / one optional kill(connection, '
+        'request, reply or error) / complete two lent requests in the same instant / complete a request whose connection dies in the same instant / Open() again on the pool in use / advance(1-150 ms) / one optional kill(connection, '
         'lent or idle) at a drawn step, against ClientTimeoutSink -> WatermarkPoolSink built from their providers over harness connections. '
         'Observed after every step: connections in existence <= max, no connection lent twice, FIFO start order of queued '
         'requests, max-waiters errors exactly when the queue is full and at once, work conservation (a live waiter implies '
@@ -53,6 +53,10 @@ def strategy(tier):
       (5, st.tuples(st.just('complete'), st.integers(0, 20), st.sampled_from(['reply', 'reply', 'error'])).map(list)),
       (2, st.tuples(st.just('complete2'), st.integers(0, 20), st.integers(0, 20)).map(list)),
       (4, st.tuples(st.just('advance'), st.sampled_from([1, 5, 10, 25, 25, 60, 150])).map(list)),
+      # a lent request is answered and its connection dies in the same instant (before the pool has handed it on)
+      (1, st.tuples(st.just('complete_die'), st.integers(0, 20)).map(list)),
+      # the owner calls Open() again on the pool that is already open and in use
+      (1, st.just(['open_again'])),
   ]
   kill = st.one_of(st.none(), st.none(), st.tuples(st.integers(0, 60), st.integers(0, 8), st.booleans()).map(list))
   return st.fixed_dictionaries({'config': cfg, 'ops': sized_list(weighted(*pairs), 0, 60 if tier == 'quick' else 160), 'kill': kill,
@@ -340,6 +344,31 @@ class Run(object):
     if l:
       self.answer(l[i % len(l)], kind)
 
+  def complete_die(self, i):
+    l = [r for r in self.lent() if not r.conn.killed]
+    if not l:
+      return
+    r = l[i % len(l)]
+    c = r.conn
+    if self.live_waiters():
+      self.flags.add('connection_died_between_release_and_hand_off')
+    self.answer(r, 'reply')
+    if self.pool.state != ChannelState.Closed:
+      c.killed = True
+      c._state = ChannelState.Closed
+
+  def open_again(self):
+    # (only where connects are immediate: an Open() that is still connecting when the pool closes itself is another story)
+    if self.pool.state == ChannelState.Closed or any(self.cfg['open_delay_ms']):
+      return
+    try:
+      ar = self.pool.Open()
+      settle()
+    except Exception as e:
+      self.fail('open-raised', 'Open() on the open pool raised %r' % (e,))
+    if self.busy() >= self.cfg['max']:
+      self.flags.add('open_again_while_saturated')
+
   def complete2(self, i, j):
     l = self.lent()
     if len(l) >= 2:
@@ -568,6 +597,10 @@ def execute(plan):
         run.complete(op[1], op[2])
       elif k == 'complete2':
         run.complete2(op[1], op[2])
+      elif k == 'complete_die':
+        run.complete_die(op[1])
+      elif k == 'open_again':
+        run.open_again()
       elif k == 'advance':
         advance(op[1] / 1000.0)
       elif k == 'kill':
